@@ -35,6 +35,7 @@ type RunSpec struct {
 	Covers    []string            `json:"covers,omitempty"`
 	Tiers     map[string]TierSpec `json:"tiers"`
 	Native    string              `json:"native,omitempty"` // replay template used to validate paths natively
+	Files     []string            `json:"files,omitempty"`  // harness files of this run when they differ from the property's
 }
 
 type PropSpec struct {
